@@ -27,7 +27,7 @@ META = dict(
          'algorithm, validated against the real one each run.',
     functions=['validate_workflow_name', 'WorkflowNameValidator.validate '
                '(UnicodeRuleChecker)', 'check_reserved_dir_names'],
-    bounds=['escape: |name| <= 6 quick / 8 thorough over {a, 1, ., /, -, ~, '
+    bounds=['escape: |name| <= 6 over {a, 1, ., /, -, ~, '
             'space, e-acute, _}', 'escape_comps: 1..4 (thorough 5) path components each '
             'from {a, ., .., empty, a., ~, -a, 1, e-acute, space}', 'reserved: 2-3 components from '
             '{run1, run, run12, runN, log, share, _cylc-install, work, a, '
